@@ -39,6 +39,20 @@ func randIncludeCase(rng *rand.Rand, seed int64) dCase {
 			}
 			d.Primary = append(d.Primary, randDocRes(rng, typ, ids[i-1]))
 		}
+		// a mixed collection may hold the same id under two types (ids are unique per type only)
+		if d.Coll == "resources" && len(d.Primary) > 0 && rng.Intn(2) == 0 {
+			first := d.Primary[0]
+			other := "t1"
+			if first.Type == "t1" {
+				other = "t2"
+			}
+			twin := randDocRes(rng, other, first.ID)
+			if rng.Intn(2) == 0 {
+				d.Primary = append(d.Primary, twin)
+			} else {
+				d.Primary = append([]dRes{twin}, d.Primary...)
+			}
+		}
 	}
 	c := dCase{Fam: "doc", Mode: "include", Doc: d, Seed: seed,
 		Var: dVariant{Impl: []string{"soft", "wrap"}[rng.Intn(2)], IDMap: rng.Intn(len(idMaps))}}
